@@ -26,7 +26,8 @@ EXPLANATION = (
     'the SQLite backend queues alter-table items on a result object instead '
     'of flushing a rebuild (.to_sql() / add_sql of an alter-table result); '
     'R-C18.5 AppMutator.run_mutation reuses the last ModelMutator for '
-    'consecutive mutations on one model.')
+    'consecutive mutations on one model; '
+    'R-C18.2 both ops pass one and the same mergeability predicate; R-C18.5 (as rewritten) with a last mutator present and equal model names no path reaches ModelMutator(...); R-C18.6 every op the run mutations queue is mergeable.')
 NOT_DECIDED = (
     'Rebuild counts for all sequences (needs execution and counting on the '
     'statement trace).')
